@@ -9,6 +9,7 @@ package combinator
 import (
 	"sync/atomic"
 
+	"github.com/opsidian/parsley/ast"
 	"github.com/opsidian/parsley/data"
 	"github.com/opsidian/parsley/parser"
 	"github.com/opsidian/parsley/parsley"
@@ -30,6 +31,13 @@ func Memoize(p parsley.Parser) parser.Func {
 
 		node, cp, err := p.Parse(ctx, leftRecCtx.Inc(parserIndex), pos)
 		leftRecCtx = leftRecCtx.Filter(cp)
+
+		// The cached list is handed to every consumer: clip its capacity so that
+		// a consumer appending to it gets its own copy instead of writing into
+		// the shared backing array.
+		if nl, ok := node.(ast.NodeList); ok {
+			node = nl[:len(nl):len(nl)]
+		}
 
 		res := &parsley.Result{
 			LeftRecCtx:        leftRecCtx,
